@@ -485,7 +485,9 @@ class History:
             # after it was evicted is the same successful read once more, and is counted once
             seen_blocks, kept = set(), []
             for it in (res.get("trace") or []):
-                if it.get("verb") == "Read" and str(it.get("path", "")).startswith("d/") and (it.get("reply") or {}).get("ok"):
+                rc = ((it.get("reply") or {}).get("content") or {})
+                if it.get("verb") == "Read" and str(it.get("path", "")).startswith("d/") and (it.get("reply") or {}).get("ok") \
+                        and rc.get("t") == "block" and rc.get("name_ok"):          # a good block (a damaged one is never cached: read again by both)
                     if it["path"] in seen_blocks:
                         continue
                     seen_blocks.add(it["path"])
